@@ -14,8 +14,10 @@ package scorch
 // ---------------------------------------------------------------------------
 
 // ---- bitmaps (github.com/RoaringBitmap/roaring) and segments (scorch_segment_api), assumed ----
-// membership in a bitmap; a nil bitmap has no members
-//@ uf bhas(b *roaring.Bitmap, x uint32) bool
+// membership in a bitmap is ghost state of the bitmap (bitmaps are mutable: Add); a nil bitmap has
+// no members
+//@ ghostfield roaring.Bitmap.mem [4294967296]bool
+//@ spec bhas(b *roaring.Bitmap, x uint32) bool = b.mem[x]
 //@ spec bin(b *roaring.Bitmap, x uint32) bool = b != nil && bhas(b, x)
 //@ assume func roaring.Or(x1, x2)
 //@   requires x1 != nil && x2 != nil
